@@ -139,6 +139,10 @@ func (c *Converter) fromDirectory(source string) ([]byte, error) {
 	/* Convert each file, appending to one big buffer. */
 	var buf bytes.Buffer
 	for _, fileName := range fileNames {
+		/* Don't care about dotfiles, as From's comment says. */
+		if 0 != len(fileName) && '.' == fileName[0] {
+			continue
+		}
 		/* "Real" filename */
 		fn := filepath.Join(source, fileName)
 		/* Don't care about non-regular files. */
